@@ -22,15 +22,15 @@ func init() {
 }
 
 type pcFacts struct {
-	c                                  *Ctx
-	pcType                             types.Type
-	recycle, closeM, isClosedM         *types.Func
-	txF, ksF, contF                    *types.Var
-	consumers                          map[*ssa.Function]int // function -> index (in cc.Args) of the connection argument
-	mapConsumers                       map[*ssa.Function]int
-	sessionSources                     map[*ssa.Function]bool
-	isInTx, isKs, recycleTx, clearKs   *ssa.Function
-	serverPkg                          *ssa.Package
+	c                                *Ctx
+	pcType                           types.Type
+	recycle, closeM, isClosedM       *types.Func
+	txF, ksF, contF                  *types.Var
+	consumers                        map[*ssa.Function]int // function -> index (in cc.Args) of the connection argument
+	mapConsumers                     map[*ssa.Function]int
+	sessionSources                   map[*ssa.Function]bool
+	isInTx, isKs, recycleTx, clearKs *ssa.Function
+	serverPkg                        *ssa.Package
 }
 
 func (c *Ctx) pcFacts() *pcFacts {
@@ -406,6 +406,13 @@ func rangesOver(fn *ssa.Function, field *types.Var) []rangeLoop {
 			rl := rangeLoop{rng: rg, next: nx, field: field}
 			if ex := extractOf(nx, 2); ex != nil {
 				rl.elem = ex
+			} else if kx := extractOf(nx, 1); kx != nil {
+				// `for k := range m { v := m[k] ... }`: the element is the lookup of the iterated key in the same map
+				allInstrs(fn, func(in2 ssa.Instruction) {
+					if lk, ok := in2.(*ssa.Lookup); ok && !lk.CommaOk && loadedField(lk.X) == field && sameVal(lk.Index, kx) && rl.elem == nil {
+						rl.elem = lk
+					}
+				})
 			}
 			out = append(out, rl)
 		}
@@ -1347,10 +1354,10 @@ func ruleC23b(c *Ctx, r *Report) {
 		return
 	}
 	allowed := map[*ssa.Function]string{
-		c.seMethod("getBackendKsConn"):  "pins on a miss",
-		c.seMethod("handleKsQuit"):      "client disconnect",
-		c.seMethod("handleKeepSessionPing"): "ping failure: every pinned connection was just recycled (PC2a/PC2b)",
-		pf.clearKs:                      "namespace changed outside a transaction",
+		c.seMethod("getBackendKsConn"):          "pins on a miss",
+		c.seMethod("handleKsQuit"):              "client disconnect",
+		c.seMethod("handleKeepSessionPing"):     "ping failure: every pinned connection was just recycled (PC2a/PC2b)",
+		pf.clearKs:                              "namespace changed outside a transaction",
 		c.Func(serverRel, "newSessionExecutor"): "constructor",
 	}
 	for _, fn := range c.Funcs {
@@ -1710,7 +1717,6 @@ func ruleC18d(c *Ctx, r *Report) {
 		r.undecided(rule, name, "source", c.Pos(fn.Pos()), "no raw source")
 	}
 }
-
 
 func isPCType(pf *pcFacts, t types.Type) bool {
 	return types.Identical(t, pf.pcType) || (namedOf(t) != nil && namedOf(t) == namedOf(pf.pcType))
